@@ -2,6 +2,7 @@ import CogentModel.Json
 import CogentModel.Model.GeneticCode
 import CogentModel.Spec.GeneticCode
 import CogentModel.Gen.C12Code
+import CogentModel.Model.GeneticCodeState
 open CogentModel CogentModel.GC CogentModel.C12Tables CogentModel.GCP CogentModel.Gen.C12Code
 
 def pyErrStr : PyErr → String
@@ -180,6 +181,32 @@ def handle (cmd : String) (j : J) : Except String J :=
     | "has_terminal_stop" => pure (exJ J.bool (collHasTerminalStop getItem rows (← (← j.get "strict").toBool)))
     | "trim_stop_codons" => pure (exJ rowsJ (collTrimStopCodons getItem rows (← (← j.get "strict").toBool)))
     | "aln_trim_stop_codons" => pure (exJ rowsJ (alnTrimStopCodons getItem rows (← (← j.get "strict").toBool)))
+    | w => throw s!"bad op {w}"
+  | "collstate" => do
+    -- DERIVED STATE of a new-style collection (Model/GeneticCodeState.lean): stored rows + reversed flags, `nrc` calls of rc()
+    let id ← (← j.get "code").toNat
+    let data := (← (← j.get "data").toList)
+    let data ← data.mapM fun r => do
+      let kv ← r.toList
+      match kv with
+      | [k, v] => pure ((← k.toStr).toList, (← v.toStr).toList)
+      | _ => throw "bad data item"
+    let seq ← findCode newCodes id
+    let getItem := newGetItem newDna seq
+    let rcf := newRc newDna
+    let sd := GCS.SD.rcTimes (← (← j.get "nrc").toNat) (GCS.SD.fresh data)
+    let fwd ← (← j.get "fwd").toBool
+    let rowsJ := fun (rs : List (List Char)) => J.arr (rs.map sJ)
+    let sdJ := fun (r : GCS.SD) => J.obj [("names", rowsJ r.names), ("rows", rowsJ (r.rows rcf)), ("stored", rowsJ (r.data.map (·.2)))]
+    match ← (← j.get "op").toStr with
+    | "display" => pure (sdJ sd)
+    | "get_translation" => do
+      let io ← (← j.get "incomplete_ok").toBool
+      let is_ ← (← j.get "include_stop").toBool
+      let ts ← (← j.get "trim_stop").toBool
+      pure (exJ (fun r => rowsJ (r.rows List.reverse)) (GCS.SD.getTranslation fwd rcf newDna seq sd io is_ ts))
+    | "has_terminal_stop" => pure (exJ J.bool (GCS.SD.hasTerminalStop rcf getItem sd (← (← j.get "strict").toBool)))
+    | "trim_stop_codons" => pure (exJ (fun r => rowsJ (r.rows rcf)) (GCS.SD.trimStopCodons fwd rcf getItem sd (← (← j.get "strict").toBool)))
     | w => throw s!"bad op {w}"
   | "gen" => do
     -- the TRANSLATED functions (Gen/C12Code.lean, regenerated from the source each run), executed
